@@ -104,6 +104,8 @@ func cmdCases(args []string) {
 		obs, err = cases.Persist(w, raws)
 	case "configclosure":
 		obs, err = cases.ConfigClosure(w, raws)
+	case "upstream":
+		obs, err = cases.Upstream(w, raws)
 	case "keycodec":
 		obs, err = cases.KeyCodec(w, raws)
 	case "proxyxform":
